@@ -16,6 +16,9 @@ pub const RAW: &[&str] = &[
     "echo \"L:$LINENO\"",
     "t 40 0 \\\n  && t 41 0",
     "echo \"L:$LINENO\" \\\n  \"M:$LINENO\"",
+    // a continuation that is followed by an empty or blank line
+    "t 40 0 \\\n\necho \"L:$LINENO\"",
+    "echo \"L:$LINENO\" \\\n   \necho \"M:$LINENO\"",
     "{ cat <<EOF\nh:$LINENO x\nEOF\n}",
     "{ cat <<'EOF'\nraw $LINENO \\\nEOF\n}",
     "{ cat <<-EOF\n\ttab $((1+1))\n\tEOF\n}",
